@@ -116,17 +116,20 @@ def apply_fault(spec, fault, pick):
     later = ci > 0 or si > 0
     if fault == "F1":
         dup = copy.deepcopy(ch)
-        for s in dup["samples"]:
-            s["data"] = [v * 2 + 1 for v in s["data"]]
-            s["modifiers"] = [m for m in s["modifiers"] if m["type"] != "shapesys"]
+        if c % 3:
+            for s in dup["samples"]:
+                s["data"] = [v * 2 + 1 for v in s["data"]]
+                s["modifiers"] = [m for m in s["modifiers"] if m["type"] != "shapesys"]
         chans.insert((b % (len(chans) + 1)), dup)
-        return None, {"fault": "F1", "variant": "dup_channel", "channel": ch["name"], "later": ci > 0}
+        return None, {"fault": "F1", "variant": "dup_channel" + ("" if c % 3 else "_identical_copy"),
+                      "channel": ch["name"], "later": ci > 0}
     if fault == "F2":
         dup = copy.deepcopy(smp)
-        dup["data"] = [v * 2 + 1 for v in dup["data"]]
-        dup["modifiers"] = [m for m in dup["modifiers"] if m["type"] not in ("shapesys", "staterror")] if b % 2 else []
+        if c % 3:
+            dup["data"] = [v * 2 + 1 for v in dup["data"]]
+            dup["modifiers"] = [m for m in dup["modifiers"] if m["type"] not in ("shapesys", "staterror")] if b % 2 else []
         ch["samples"].insert(b % (len(ch["samples"]) + 1), dup)
-        return None, {"fault": "F2", "variant": "dup_sample_" + ("mods" if b % 2 else "bare"),
+        return None, {"fault": "F2", "variant": "dup_sample_" + ("identical_copy" if not c % 3 else "mods" if b % 2 else "bare"),
                       "channel": ch["name"], "sample": smp["name"], "later": later}
     if fault == "F3":
         cands = [m for m in smp["modifiers"] if m["type"] in ("normsys", "histosys", "staterror", "shapesys")]
